@@ -4,6 +4,7 @@ import (
 	"encoding/json"
 	"flag"
 	"fmt"
+	"math"
 	"net/netip"
 	"os"
 	"path/filepath"
@@ -56,6 +57,14 @@ var (
 	genShortLabel  = rapid.StringMatching(`[a-z][a-z0-9]{0,9}`)
 	genFreeOrg     = rapid.StringMatching(`[A-Za-z0-9][A-Za-z0-9 .,'&()-]{0,38}[A-Za-z0-9.]`)
 )
+
+// ipHostBracketed is the IPv6 literal as an authority without a port: "[::1]"
+// (the authority grammar has no other way to write an IPv6 literal).
+func ipHostBracketed(spelled string) Host {
+	h := ipHost(spelled, 0)
+	h.Spelling, h.Class = "["+spelled+"]", "ipv6-bracketed"
+	return h
+}
 
 func genLabel(t *rapid.T) string {
 	switch rapid.SampledFrom([]string{"short", "short", "short", "hyphen", "digits", "puny", "long"}).Draw(t, "label_style") {
@@ -235,6 +244,10 @@ func genHosts(t *rapid.T) []Host {
 				if rapid.Bool().Draw(t, "with_port") {
 					port = genPort(t)
 				}
+				if port == 0 && rapid.IntRange(0, 2).Draw(t, "v6_brackets_no_port") == 0 {
+					pool = append(pool, ipHostBracketed(spellIPv6(raw, style)))
+					continue
+				}
 				pool = append(pool, ipHost(spellIPv6(raw, style), port))
 			}
 		}
@@ -359,6 +372,27 @@ func stormFresh(ca string) int {
 	return n
 }
 
+const yearMs = 365 * 24 * 3600 * 1000
+
+// maxValidityMs is the largest validity a time.Duration can hold, in ms (292.47 years).
+const maxValidityMs = int(math.MaxInt64 / int64(time.Millisecond))
+
+// genLongValidity draws what SetValidity gets in histories that do not wait
+// for expiry: mostly nothing (the default hour), else anything from a minute
+// to the largest time.Duration, biased to the values where doubling or adding
+// a Duration stops fitting (2^62 ns = 146.2 years, 2^63 ns = 292.5 years).
+func genLongValidity(t *rapid.T) int {
+	switch rapid.SampledFrom([]string{"default", "default", "default", "edge", "years", "any"}).Draw(t, "validity_kind") {
+	case "edge":
+		return rapid.SampledFrom([]int{60_000, 24 * 3600_000, 10 * yearMs, 100 * yearMs, 146 * yearMs, int(1<<62/1_000_000) - 1, int(1<<62/1_000_000) + 1, 147 * yearMs, 200 * yearMs, 290 * yearMs, maxValidityMs}).Draw(t, "validity_ms")
+	case "years":
+		return rapid.IntRange(1, 292).Draw(t, "validity_years") * yearMs
+	case "any":
+		return rapid.IntRange(60_000, maxValidityMs).Draw(t, "validity_ms")
+	}
+	return 0
+}
+
 // genTunnels draws 1..3 CONNECT tunnels over the spellings that carry a port
 // (a CONNECT authority has one).
 func genTunnels(t *rapid.T, hosts []Host) (Op, bool) {
@@ -441,12 +475,13 @@ var oracleText = "oracle: chain verifies under the CA for the named host (SNI, e
 
 var propMachine = &kit.Prop[Case]{
 	ID: "C06", Name: "machine", Journal: true,
-	Rule:       "rapid-drawn histories of 1..12 operations (direct GetCertificate, real handshake TLS1.2/1.3, concurrent burst, no-name request, request for a name no certificate can be issued for - raw UTF-8 IDN as SNI or authority -, sweep of 2..300 distinct names) over one mitm.Config with a drawn organization and a pool of 1..3 hosts in 1..3 spellings each (LDH names 1..4 labels, mixed case, IPv4, IPv6 bare / bracketed with port, siblings); " + oracleText + "; non-trivial = IP literal, host:port form, mixed case, cache hit, or concurrency >= 2",
+	Rule:       "rapid-drawn histories of 1..12 operations (direct GetCertificate, real handshake TLS1.2/1.3, concurrent burst, no-name request, request for a name no certificate can be issued for - raw UTF-8 IDN as SNI or authority -, sweep of 2..300 distinct names) over one mitm.Config with a drawn organization, a drawn validity (default hour in half of the cases, else one minute .. 292 years) and a pool of 1..3 hosts in 1..3 spellings each (LDH names 1..4 labels, mixed case, IPv4, IPv6 bare / bracketed with port / bracketed without port, siblings); " + oracleText + "; non-trivial = IP literal, host:port form, mixed case, cache hit, or concurrency >= 2",
 	Run:        budgeted("machine", 8*time.Second, 45*time.Second),
 	NonTrivial: nonTrivial, Classes: classes,
 	Gates: map[string]float64{"nontrivial": 0.7, "ip-literal": 0.2, "host-port": 0.3, "mixed-case": 0.3, "cache-hit": 0.3, "handshake": 0.4, "sni": 0.4, "no-name": 0.08, "ipv6-bare": 0.03, "ipv6-bracket-port": 0.03, "sni-differs-from-fallback": 0.15},
 	Gen: func(t *rapid.T) Case {
-		c := Case{Org: genOrg(t), CA: rapid.SampledFrom([]string{"", "", "ecdsa"}).Draw(t, "ca"), Hosts: genHosts(t)}
+		c := Case{Org: genOrg(t), CA: rapid.SampledFrom([]string{"", "", "ecdsa"}).Draw(t, "ca"), Hosts: genHosts(t), H2: rapid.SampledFrom([]string{"", "", "", "all", "even"}).Draw(t, "h2")}
+		c.ValidityMs = genLongValidity(t)
 		n := rapid.IntRange(1, 12).Draw(t, "n")
 		for i := 0; i < n; i++ {
 			c.Ops = append(c.Ops, genOp(t, c.Hosts))
@@ -462,7 +497,7 @@ var propExpiry = &kit.Prop[Case]{
 	NonTrivial: func(c Case) bool { return analyse(c).crossing },
 	Classes:    classes,
 	Gen: func(t *rapid.T) Case {
-		c := Case{Org: genOrg(t), CA: rapid.SampledFrom([]string{"", "", "ecdsa"}).Draw(t, "ca"), Short: true, Hosts: genHosts(t)}
+		c := Case{Org: genOrg(t), CA: rapid.SampledFrom([]string{"", "", "ecdsa"}).Draw(t, "ca"), Short: true, Hosts: genHosts(t), H2: rapid.SampledFrom([]string{"", "", "", "all", "even"}).Draw(t, "h2")}
 		pre := rapid.IntRange(1, 4).Draw(t, "pre")
 		for i := 0; i < pre; i++ {
 			c.Ops = append(c.Ops, genRequest(t, c.Hosts, rapid.SampledFrom([]string{"get", "get", "hs"}).Draw(t, "kind")))
@@ -475,7 +510,8 @@ var propExpiry = &kit.Prop[Case]{
 			again := c.Ops[rapid.IntRange(0, pre-1).Draw(t, "again")]
 			again.Kind = rapid.SampledFrom([]string{"get", "get", "hs"}).Draw(t, "again_kind")
 			again.Held = false
-			if rapid.IntRange(0, 2).Draw(t, "held") != 0 {
+			bracketed := again.Host >= 0 && c.Hosts[again.Host].Class == "ipv6-bracketed" // keeps that spelling's signature shape unique
+			if !bracketed && rapid.IntRange(0, 2).Draw(t, "held") != 0 {
 				// the server side is set up before the gap, the client speaks after it
 				again.Held = true
 				if again.API != "tls" && again.Host >= 0 {
@@ -521,7 +557,7 @@ var propConcurrent = &kit.Prop[Case]{
 	Classes:    classes,
 	Gates:      map[string]float64{"nontrivial": 0.9, "handshake": 0.3, "cache-hit": 0.3},
 	Gen: func(t *rapid.T) Case {
-		c := Case{Org: genOrg(t), CA: rapid.SampledFrom([]string{"", "ecdsa", "ecdsa"}).Draw(t, "ca"), Hosts: genHosts(t)}
+		c := Case{Org: genOrg(t), CA: rapid.SampledFrom([]string{"", "ecdsa", "ecdsa"}).Draw(t, "ca"), Hosts: genHosts(t), H2: rapid.SampledFrom([]string{"", "", "", "all", "even"}).Draw(t, "h2")}
 		warm := rapid.IntRange(0, 3).Draw(t, "warm")
 		for i := 0; i < warm; i++ {
 			if rapid.IntRange(0, 4).Draw(t, "warm_odd") == 0 {
@@ -540,7 +576,7 @@ var propConcurrent = &kit.Prop[Case]{
 
 var propMatrix = &kit.Prop[Case]{
 	ID: "C06", Name: "matrix",
-	Rule:       "fixed matrix: every listed spelling class (lower/mixed-case names, 63-byte label, 253-byte name, punycode, IPv4, IPv6 loopback/compressed/upper-case/expanded/IPv4-mapped, each bare and with port) x {direct, cache hit, handshake TLS1.3, handshake TLS1.2, SNI same / SNI different / SNI through Config.TLS()}, plus the no-name requests; three rows repeated under a P-256 authority; " + oracleText,
+	Rule:       "fixed matrix: every listed spelling class (lower/mixed-case names, 63-byte label, 253-byte name, punycode, IPv4, IPv6 loopback/compressed/upper-case/expanded/IPv4-mapped, each bare and with port, three bracketed without port) x {direct, cache hit, handshake TLS1.3, handshake TLS1.2, SNI same / SNI different / SNI through Config.TLS()}, plus the no-name requests; three rows repeated under a P-256 authority, three with an h2.Config that allows every host; " + oracleText,
 	Run:        journaled("matrix", func(c Case) kit.Verdict { return run("matrix", c) }),
 	NonTrivial: nonTrivial, Classes: classes,
 }
@@ -556,15 +592,20 @@ func matrixCases() []Case {
 		ipHost("::1", 0), ipHost("::1", 8443), ipHost("2001:db8::1", 0), ipHost("2001:db8::1", 443),
 		ipHost("2001:DB8::A", 0), ipHost("2001:DB8::A", 443), ipHost("2001:db8:0:0:0:0:0:1", 0), ipHost("2001:db8:0:0:0:0:0:1", 443),
 		ipHost("::ffff:192.0.2.9", 0), ipHost("::ffff:192.0.2.9", 443), ipHost("fe80::1", 0), ipHost("::", 443),
+		ipHostBracketed("::1"), ipHostBracketed("2001:DB8::A"), ipHostBracketed("::ffff:192.0.2.9"),
 	}
 	var out []Case
-	// the first rows once more under the P-256 authority, ahead of the rest
-	rows := append([]Host{dnsHost("Ecdsa.Example.com", 443), ipHost("192.0.2.1", 443), ipHost("2001:db8::1", 443)}, hosts...)
+	// the first rows once more under the P-256 authority, the next three with HTTP/2 allowed, ahead of the rest
+	rows := append([]Host{dnsHost("Ecdsa.Example.com", 443), ipHost("192.0.2.1", 443), ipHost("2001:db8::1", 443),
+		dnsHost("H2.Example.com", 443), ipHost("192.0.2.10", 443), ipHost("2001:db8::7", 8443)}, hosts...)
 	for i, h := range rows {
 		sibling := dnsHost("sibling.example.net", 0)
 		c := Case{Org: "Matrix Org", Hosts: []Host{h, sibling}}
 		if i < 3 {
 			c.CA = "ecdsa"
+		}
+		if i >= 3 && i < 6 {
+			c.H2 = "all"
 		}
 		isDNS := strings.HasPrefix(h.Class, "dns")
 		c.Ops = []Op{
@@ -602,10 +643,13 @@ func matrixCases() []Case {
 
 var propTiming = &kit.Prop[Case]{
 	ID: "C06", Name: "timing",
-	Rule:       "fixed histories about WHEN the leaf is chosen: (a) SetValidity(2s), tls.Configs for five spellings and Config.TLS() built first, one request to fill the cache, a sleep past the validity, then direct requests and real handshakes served by the configs built before the sleep (no SNI, SNI equal to the authority, other SNI); (b) a real martian.Proxy doing MITM with SetValidity(1s): six CONNECT tunnels in parallel, five of them idle for 1.3 s between the 200 and the ClientHello (no SNI, SNI equal to the authority, IPv4, bracketed IPv6, other SNI), one without pause; thorough repeats both under the P-256 authority; " + oracleText + "; non-trivial = a certificate served after such a gap",
-	Run:        journaled("timing", func(c Case) kit.Verdict { return run("timing", c) }),
-	NonTrivial: func(c Case) bool { ci := analyse(c); return ci.heldCrossing || ci.idleTunnel },
-	Classes:    classes,
+	Rule: "fixed histories about WHEN the leaf is chosen: (a) SetValidity(2s), tls.Configs for five spellings and Config.TLS() built first, one request to fill the cache, a sleep past the validity, then direct requests and real handshakes served by the configs built before the sleep (no SNI, SNI equal to the authority, other SNI); (b) a real martian.Proxy doing MITM with SetValidity(1s): six CONNECT tunnels in parallel, five of them idle for 1.3 s between the 200 and the ClientHello (no SNI, SNI equal to the authority, IPv4, bracketed IPv6, other SNI), one without pause; thorough repeats both under the P-256 authority; (c) SetValidity of 100, 146, 147, 200, 290 years and of the largest time.Duration (292.5 years): direct request, cache hit, verifying handshakes; " + oracleText + "; non-trivial = a certificate served after such a gap",
+	Run:  journaled("timing", func(c Case) kit.Verdict { return run("timing", c) }),
+	NonTrivial: func(c Case) bool {
+		ci := analyse(c)
+		return ci.heldCrossing || ci.idleTunnel || c.validity() > 24*time.Hour
+	},
+	Classes: classes,
 }
 
 func timingCases() []Case {
@@ -650,6 +694,12 @@ func timingCases() []Case {
 			{Kind: "get", Host: 0},
 		}
 		out = append(out, b)
+	}
+	// (c) the configured validity itself: years, up to the largest time.Duration
+	for _, ms := range []int{100 * yearMs, 146 * yearMs, 147 * yearMs, 200 * yearMs, 290 * yearMs, maxValidityMs} {
+		c := Case{Org: "Timing Org", ValidityMs: ms, Hosts: []Host{dnsHost("forever.example.com", 443), ipHost("10.20.30.40", 443)}}
+		c.Ops = []Op{{Kind: "get", Host: 0}, {Kind: "get", Host: 0}, {Kind: "hs", Host: 1, Std: true}, {Kind: "hs", Host: 0, Sni: "Forever.Example.com", Std: true, TLS12: true}}
+		out = append(out, c)
 	}
 	return out
 }
